@@ -66,7 +66,7 @@ def rand_filter_(rng, paths, exact):
     if k == 2:
         return rx_escape(rng.choice(comps))
     if k == 3:
-        c = rng.choice(comps)
+        c = rng.choice([x for x in comps if x] or ["treedrv"])
         i = rng.randrange(len(c))
         return rx_escape(c[i:i + rng.randrange(1, 4)])
     if k == 4:
@@ -125,6 +125,15 @@ def gen_config(rng, sp, profile):
     elif action == "list_benches":
         cfg.run_mode = "list"
         it.action = "list"
+    if action in ("bench", "test") and rng.random() < profile.get("p_explicit_entry", 0.12):
+        # the explicit entry points decide the action, whatever the runner was configured for: run_benches() on a runner whose
+        # command line says --test (or nothing, as under `cargo test --benches`), test_benches() on one that says --bench
+        if action == "bench":
+            cfg.run_mode = "bench"
+            cli[:] = [c for c in cli if c != "--bench"] + (["--test"] if rng.random() < 0.5 else [])
+        else:
+            cfg.run_mode = "test"
+            cli[:] = [c for c in cli if c != "--test"] + ["--bench"]
     if action != "bench" and not getattr(sp, "clock_os", False) and rng.random() < profile.get("p_timer_flag", 0.0):
         # the timer choice must not change what a test run or a listing selects (coarse virtual counters, tiny budgets)
         if rng.random() < 0.6:
@@ -152,6 +161,16 @@ def gen_config(rng, sp, profile):
             cli += ["--skip", s]
         if exact:
             cli.append("--exact")
+    elif rng.random() < profile.get("p_builder_skip_alone", 0.1):
+        # filters set by the program itself (Divan::skip_exact / skip_regex before the command line is read) and none on the
+        # command line: they are in force all the same
+        bskip = []
+        for _ in range(rng.randrange(1, 3)):
+            rx = rng.random() < 0.5
+            pat = rand_filter(rng, paths, not rx)
+            bskip.append((pat, rx))
+            builder.append(["skip_regex" if rx else "skip_exact", TG.hx(pat)])
+        it.filters = TG.Filters([], [], False, bskip)
     # ignore flags
     r = rng.random()
     if r < profile.get("p_ignore_flag", 0.3):
